@@ -186,7 +186,7 @@ def step (s : DSys) (w : List String) : DSys × String :=
     | some (k, id), some off, some ln =>
       match readData id s.m.heap id.len with
       | .ok d =>
-        if off + ln > id.len ∨ id.len = 0 then (s, "bad-op")
+        if off + ln > id.len then (s, "bad-op")
         else
           let name := (d.drop off).take ln
           match setVal (.text name) with
@@ -291,7 +291,40 @@ def step (s : DSys) (w : List String) : DSys × String :=
     | none => (s, "bad-op")
   | _ => (s, "bad-op")
 
+/-- the C++ class `mpt::identifier` (mpt++/identifier.cpp): its methods are the C functions on `this` -/
+def stepX (s : DSys) (w : List String) : DSys × String :=
+  match w with
+  | ["xi", "reset"] => step s ["i", "reset"]
+  | ["xi", "new", sz] => step s ["i", "new", sz]
+  | "xi" :: "set" :: rest => step s ("i" :: "set" :: rest)
+  | ["xi", "free", kw] => step s ["i", "free", kw]
+  | ["xi", "copyctor", jw] => if jw = "null" then (s, "bad-op") else step s ["i", "tinit", jw]
+  | ["xi", "assign", kw, jw] => if jw = "null" then (s, "bad-op") else step s ["i", "copy", kw, jw]
+  | "xi" :: "equal" :: rest =>
+    let (s', out) := step s ("i" :: "cmp" :: rest)
+    -- `equal` answers a bool: no return code among the internals
+    (s', match out.splitOn " ret=" with
+      | [a, b] => a ++ ((b.splitOn " | S ").drop 1 |>.foldl (fun acc x => acc ++ " | S " ++ x) "")
+      | _ => out)
+  | ["xi", "name", kw] =>
+    match getSlot s kw with
+    | some (k, id) =>
+      let v := specOf s k
+      let alts : Alts := [(if v.charset = utf8 then s!"name={fmtContent v.bytes}" else "null", s.spec)]
+      if id.charset ≠ 1 then (s, line "null" s alts)
+      else if id.len = 0 then (s, line "name=!nolength" s alts)
+      else match readData id s.m.heap id.len with
+        | .ok d => (s, line s!"name={fmtContent d.dropLast}" s alts)
+        | .error f => (s, line s!"FAULT:{faultName f}" s alts)
+    | none => (s, "bad-op")
+  | _ => (s, "bad-op")
+
+def stepAny (s : DSys) (w : List String) : DSys × String :=
+  match w with
+  | "xi" :: _ => stepX s w
+  | _ => step s w
+
 def main (_args : List String) : IO Unit := do
-  Driver.loop (← IO.getStdin) (← IO.getStdout) step ({} : DSys)
+  Driver.loop (← IO.getStdin) (← IO.getStdout) stepAny ({} : DSys)
 
 end Driver.Ident
